@@ -54,10 +54,15 @@ Definition spatial_inertia (m : T) (r : V3 T) (I : M33 T) : M66 T :=
   let C := skew3 O r in
   block66 (mscale33 O m (I33 O)) (mscale33 O m (mtr33 C))
           (mscale33 O m C)       (madd33 O I (mmul33 O (mscale33 O m C) (mtr33 C))).
+
+(* model of SpatialInertia.__add__ (both operands inertias), spatialvector.py:587:
+       return SpatialInertia(left.A + right.A)
+   the 6x6 constructor path forces float64, so this does not trace either; tied by the numeric correspondence *)
+Definition inertia_add (A B : M66 T) : M66 T := madd66 A B.
 End C20.
 
 #[export] Hint Unfold vadd6 vsub6 vneg6 vscale6 lin6 ang6 madd66 mneg66 mneg33 crm_ref crf_ref Ad_ref
-  parallel_axis_ref spatial_inertia : smlin.
+  parallel_axis_ref spatial_inertia inertia_add : smlin.
 
 (* ------------------------------------------------------------------------------------------------
    Dispatch model of the class layer (no arithmetic).  Mirrors the code AS IT IS:
@@ -69,7 +74,7 @@ End C20.
                                      isinstance(other, SpatialF6) -> SpatialForce, else TypeError
      SpatialInertia.__mul__        : SpatialAcceleration -> SpatialForce, SpatialVelocity -> SpatialMomentum, else TypeError
      SpatialVector.__rmul__ (SE3)  : right.__class__
-     SpatialInertia.__add__        : not a SpatialInertia -> TypeError; otherwise evaluates `left.I` -> AttributeError *)
+     SpatialInertia.__add__        : not a SpatialInertia -> TypeError; otherwise SpatialInertia(left.A + right.A) *)
 Inductive svc := Vel | Acc | Frc | Mom.
 Inductive rcls := SV (c : svc) | NotSV.         (* right operand: a spatial-vector class, or anything else *)
 Inductive exn := TypeError | ValueError | AttributeError | IndexError.
@@ -105,7 +110,7 @@ Definition se3mul_model (c : svc) : outcome := Value c 1.
 
 Inductive ioutcome := ISum | IRaise (e : exn).
 Definition iadd_model (right_is_inertia : bool) : ioutcome :=
-  if right_is_inertia then IRaise AttributeError else IRaise TypeError.
+  if right_is_inertia then ISum else IRaise TypeError.
 
 (* What the property asks for ("expected table"): None = rejected, Some (class, length) = accepted. *)
 Definition addsub_expected (l : svc) (nl : nat) (r : rcls) (nr : nat) : option (svc * nat) :=
